@@ -56,8 +56,10 @@ def make_path_variants(root):
     """
     full = os.environ.get("PATH", "/usr/bin:/bin")
     variants = {"full": full}
-    for name, tools in (("diffonly", ("diff", "diff3")), ("bare", ())):
-        d = os.path.join(root, "path-" + name)
+    # "spaced": all three helpers, found through a directory whose name contains blanks (C:\\Program Files\\Git\\bin,
+    # "/Applications/Dev Tools/bin")
+    for name, tools in (("diffonly", ("diff", "diff3")), ("bare", ()), ("spaced", ("git", "diff", "diff3"))):
+        d = os.path.join(root, "path-" + name if name != "spaced" else "path with blanks in it")
         os.makedirs(d, exist_ok=True)
         for t in _COREUTILS + tools:
             src = shutil.which(t, path=full)
